@@ -48,15 +48,19 @@ class Recs(Harness):
     prop, ob = PROP, 'O1'
     width = 64
 
-    def __init__(self, product, vshape, sset, suppress_gex=False):
-        self.product, self.vshape, self.sset = product, tuple(vshape), sset
-        self.name = 'recs-%s-%s-%s' % (product.replace(' ', ''), 'x'.join(map(str, vshape)), sset)
+    def __init__(self, product, vshape, sset, lead=None):
+        self.product, self.vshape, self.sset, self.lead = product, tuple(vshape), sset, lead
+        self.name = 'recs-%s-%s-%s%s' % (product.replace(' ', ''), 'x'.join(map(str, vshape)), sset, '' if lead is None else '-lead%s' % lead)
+        self.cost = 10
 
     def params(self):
-        return {'product': self.product, 'vshape': list(self.vshape), 'sset': self.sset}
+        return {'product': self.product, 'vshape': list(self.vshape), 'sset': self.sset, 'lead': self.lead}
 
     def inputs(self):
-        return {'ver': sym_version('v', self.vshape), 'unk': zx.fresh_str('unk', 2, OL.NAMECH)}
+        v = sym_version('v', self.vshape)
+        if self.lead is not None and zx.active():
+            zx.cur().assume(v.startswith(self.lead))      # partition of the version space by leading digit (one task per digit)
+        return {'ver': v, 'unk': zx.fresh_str('unk', 2, OL.NAMECH)}
 
     def run(self, M, inp):
         L = {c: list(v) for c, v in SERVER_SETS[self.sset].items()}
@@ -166,17 +170,20 @@ class TwoServers(Harness):
     prop, ob = PROP, 'O3'
     width = 64
 
-    def __init__(self, product, va, sb):
-        self.product, self.va, self.sb = product, va, tuple(sb)
-        self.name = 'twoservers-%s-%s-then-%s' % (product.replace(' ', ''), va, 'x'.join(map(str, sb)))
+    def __init__(self, product, va, sb, lead=None):
+        self.product, self.va, self.sb, self.lead = product, va, tuple(sb), lead
+        self.name = 'twoservers-%s-%s-then-%s%s' % (product.replace(' ', ''), va, 'x'.join(map(str, sb)), '' if lead is None else '-lead%s' % lead)
         self.cost = 100
 
     def params(self):
-        return {'product': self.product, 'va': self.va, 'sb': list(self.sb)}
+        return {'product': self.product, 'va': self.va, 'sb': list(self.sb), 'lead': self.lead}
 
     def inputs(self):
         # the first server's version is concrete (an old and a new release), the second one symbolic
-        return {'va': self.va, 'vb': sym_version('b', self.sb)}
+        vb = sym_version('b', self.sb)
+        if self.lead is not None and zx.active():
+            zx.cur().assume(vb.startswith(self.lead))
+        return {'va': self.va, 'vb': vb}
 
     def recs(self, M, ver):
         L = {c: list(v) for c, v in SERVER_SETS['weak'].items()}
@@ -238,17 +245,26 @@ def tasks(tier):
             for ss in (SERVER_SETS if (prod in ('OpenSSH', 'Dropbear SSH') or not q) else ['weak']):
                 if q and prod == 'Dropbear SSH' and ss not in ('weak', 'gss'):
                     continue
-                T.append(Recs(prod, sh, ss))
+                if prod == 'OpenSSH' and sh == (1, 1):
+                    for lead in '123456789':      # leading digit 0 is covered by the libssh/Dropbear shapes; OpenSSH 0.x does not exist
+                        T.append(Recs(prod, sh, ss, lead))
+                    T.append(Recs(prod, sh, ss, '0'))
+                else:
+                    T.append(Recs(prod, sh, ss))
     for prod, va, sb in [('OpenSSH', '10.0', (1, 1)), ('OpenSSH', '3.9', (1, 1)), ('OpenSSH', '5.3', (2, 1)), ('Dropbear SSH', '0.52', (4, 2)), ('libssh', '0.10.6', (1, 1, 1))]:
-        T.append(TwoServers(prod, va, sb))
+        if prod == 'OpenSSH' and sb == (1, 1):
+            for lead in '0123456789':
+                T.append(TwoServers(prod, va, sb, lead))
+        else:
+            T.append(TwoServers(prod, va, sb))
     T.append(max_warn_count)
     return T
 
 
 def harness_by_name(name, params):
     if name.split(':')[1].startswith('twoservers'):
-        return TwoServers(params['product'], params['va'], params['sb'])
-    return Recs(params['product'], params['vshape'], params['sset'])
+        return TwoServers(params['product'], params['va'], params['sb'], params.get('lead'))
+    return Recs(params['product'], params['vshape'], params['sset'], params.get('lead'))
 
 
 META = {
